@@ -344,15 +344,19 @@ void tN2kDeviceList::HandleConfigurationInformation(const tN2kMsg &N2kMsg) {
   if ( N2kMsg.Source>=N2kMaxBusDevices || Sources[N2kMsg.Source]==0 ) return;
 
 //  unsigned long t1=micros();
-  size_t ManISize;
-  size_t InstDesc1Size;
-  size_t InstDesc2Size;
+  // tN2kMsg::GetVarStr reports the size of a string only, if it gets a buffer for it. So we
+  // query required sizes by parsing all strings to same scratch buffer. UCS2 to UTF8
+  // conversion can grow string by 3/2.
+  char Scratch[(tN2kMsg::MaxDataLen*3)/2+1];
+  size_t ManISize=sizeof(Scratch);
+  size_t InstDesc1Size=sizeof(Scratch);
+  size_t InstDesc2Size=sizeof(Scratch);
 
   tInternalDevice *pDevice=Sources[N2kMsg.Source];
 
   N2kHandleInDbg(" Handle configuration information for source: "); N2kHandleInDbgln(N2kMsg.Source);
 
-  if ( ParseN2kPGN126998(N2kMsg,ManISize,0,InstDesc1Size,0,InstDesc2Size,0) ) { // First query required size
+  if ( ParseN2kPGN126998(N2kMsg,ManISize,Scratch,InstDesc1Size,Scratch,InstDesc2Size,Scratch) ) { // First query required size
     pDevice->InitConfigurationInformation(ManISize,InstDesc1Size,InstDesc2Size);
     int TotalSize=ManISize+InstDesc1Size+InstDesc2Size;
     if ( TotalSize>0 ) {
@@ -438,19 +442,20 @@ char * tN2kDeviceList::tInternalDevice::InitConfigurationInformation(size_t &_Ma
   if ( ConfI==0 ) {
     ConfISize=_ConfISize;
     ConfI=(char*)(ConfISize>0?malloc(ConfISize):0);
-    if ( _ManISize>0 ) {
-      ManufacturerInformation=ConfI;
-      ManufacturerInformation[0]='\0';
-    } else ManufacturerInformation=0;
-    if ( _InstDesc1Size>0 ) {
-      InstallationDescription1=ConfI+_ManISize;
-      InstallationDescription1[0]='\0';
-    } else InstallationDescription1=0;
-    if ( _InstDesc2Size>0 ) {
-      InstallationDescription2=ConfI+_ManISize+_InstDesc1Size;
-      InstallationDescription2[0]='\0';
-    } else InstallationDescription2=0;
   }
+  // Field sizes may differ from previous ones, so set field pointers also, when we reuse old buffer.
+  if ( _ManISize>0 ) {
+    ManufacturerInformation=ConfI;
+    ManufacturerInformation[0]='\0';
+  } else ManufacturerInformation=0;
+  if ( _InstDesc1Size>0 ) {
+    InstallationDescription1=ConfI+_ManISize;
+    InstallationDescription1[0]='\0';
+  } else InstallationDescription1=0;
+  if ( _InstDesc2Size>0 ) {
+    InstallationDescription2=ConfI+_ManISize+_InstDesc1Size;
+    InstallationDescription2[0]='\0';
+  } else InstallationDescription2=0;
   ConfILoaded=true;
   return ConfI;
 }
